@@ -601,3 +601,204 @@ Proof.
     exists k. rewrite app_length, hnd_app1 by assumption. split; [assumption|]. split; [lia|]. auto.
   - intros j sl v Hs Hn Hv. apply in_or_app. left. eapply (g_hist HG); eassumption.
 Qed.
+
+(* ------------------------------------------------------------------------------------------ *)
+(* the creation command of the pending handle k = (i, 0) is applied: its slot is installed (the table grows by
+   null slots if needed) and the entity enters archetype ai *)
+Lemma G_activate s s' hs al rem rem' k key i ai a :
+  G s hs al rem -> pend rem k -> (forall k', pend rem' k' <-> pend rem k' /\ k' <> k) -> hnd hs k = (i, 0%N) ->
+  length (locs s') = length (slots s') -> length (slots s) <= length (slots s') ->
+  nth_error (slots s') (N.to_nat i) = Some {| s_id := i; s_ver := 0 |} ->
+  (forall j, j <> N.to_nat i -> j < length (slots s) -> nth_error (slots s') j = nth_error (slots s) j) ->
+  (forall j, j <> N.to_nat i -> length (slots s) <= j -> j < length (slots s') -> nth_error (slots s') j = Some null_slot) ->
+  next_slot s' = next_slot s -> empty_slots s' = empty_slots s ->
+  nth_error (archs s) ai = Some a -> a_key a = key ->
+  archs s' = upd (archs s) ai {| a_key := a_key a; a_ents := a_ents a ++ [(i, 0%N)] |} ->
+  nth_error (locs s') (N.to_nat i) = Some {| l_arch := Some ai; l_idx := length (a_ents a) |} ->
+  (forall j, j <> N.to_nat i -> j < length (locs s) -> nth_error (locs s') j = nth_error (locs s) j) ->
+  G s' hs (al ++ [(k, key)]) rem'.
+Proof.
+  intros HG Hpk Hp Eh A1 A10 A2 A3 A4 En Ee Harch Hkey A6 A7 A7o.
+  destruct (g_pend HG k Hpk) as (Hk & Hna & _ & Hpat & Huniq). rewrite Eh in Hpat, Huniq. unfold pend_at, gap in Hpat. simpl in Hpat, Huniq.
+  pose proof (g_len HG) as Hlen.
+  assert (Hai : ai < length (archs s)) by (apply nth_error_Some; congruence).
+  assert (HniW : ~ In i (W s)).
+  { destruct Hpat as [Hge|(_ & Hn)]; [|rewrite N2Nat.id in Hn; assumption]. intros Hin. pose proof (g_free_range HG i Hin). lia. }
+  assert (HW : W s' = W s).
+  { unfold W. rewrite En, Ee. apply walk_ext. intros x Hx. apply A3.
+    - intros E. apply HniW. replace i with x by (apply N2Nat.inj; assumption). exact Hx.
+    - apply (g_free_range HG). exact Hx. }
+  assert (Hother : forall k', k' < length hs -> k' <> k -> N.to_nat (fst (hnd hs k')) <> N.to_nat i).
+  { intros k' Hk' Hne E. apply (Huniq k' Hk' Hne). apply N2Nat.inj. assumption. }
+  assert (Hslot_old : forall k' sl, k' < length hs -> k' <> k -> nth_error (slots s) (N.to_nat (fst (hnd hs k'))) = Some sl ->
+             nth_error (slots s') (N.to_nat (fst (hnd hs k'))) = Some sl).
+  { intros k' sl Hk' Hne Hs. rewrite A3; [assumption|apply Hother; assumption|apply nth_error_Some; congruence]. }
+  constructor.
+  - assumption.
+  - rewrite HW. apply (g_free_nodup HG).
+  - intros x Hx. rewrite HW in Hx. pose proof (g_free_range HG x Hx). lia.
+  - intros x sl Hx Hs. rewrite HW in Hx. rewrite A3 in Hs.
+    + eapply (g_free_ver HG); eassumption.
+    + intros E. apply HniW. replace i with x by (apply N2Nat.inj; assumption). exact Hx.
+    + apply (g_free_range HG). exact Hx.
+  - apply (g_hs_ver HG).
+  - apply (g_hs_id HG).
+  - apply (g_hs_nodup HG).
+  - rewrite map_app. simpl. apply NoDup_app_intro_single; [apply (g_al_nodup HG)|exact Hna].
+  - (* alive *)
+    intros k' key' Hin. apply in_app_or in Hin. destruct Hin as [Hin|[E|[]]].
+    + destruct (g_alive HG k' key' Hin) as (Hk'lt & HnW' & Hslot' & ai' & idx' & a' & Hloc' & Harch' & Hkey' & Hent').
+      assert (Hne : k' <> k) by (intros ->; apply Hna; unfold alive; apply in_map_iff; exists (k, key'); auto).
+      split; [assumption|]. split; [rewrite HW; assumption|]. split; [apply Hslot_old; assumption|].
+      assert (Hl' : nth_error (locs s') (N.to_nat (fst (hnd hs k'))) = Some {| l_arch := Some ai'; l_idx := idx' |}).
+      { rewrite A7o; [assumption|apply Hother; assumption|apply nth_error_Some; congruence]. }
+      destruct (Nat.eq_dec ai' ai) as [->|Hnai].
+      * rewrite Harch in Harch'. inversion Harch'; subst a'.
+        exists ai, idx', {| a_key := a_key a; a_ents := a_ents a ++ [(i, 0%N)] |}.
+        rewrite A6, nth_error_upd_same by assumption. simpl. repeat split; try assumption.
+        rewrite nth_error_app1; [assumption|]. apply nth_error_Some. congruence.
+      * exists ai', idx', a'. rewrite A6, nth_error_upd_other by congruence. auto.
+    + inversion E; subst k' key'. split; [assumption|]. rewrite Eh. simpl. split; [rewrite HW; assumption|]. split; [assumption|].
+      exists ai, (length (a_ents a)), {| a_key := a_key a; a_ents := a_ents a ++ [(i, 0%N)] |}.
+      rewrite A6, nth_error_upd_same by assumption. simpl. repeat split; try assumption. apply nth_error_app_last.
+  - (* dead *)
+    intros k' Hk' Hna' Hnp'.
+    assert (Hne : k' <> k) by (intros ->; apply Hna'; unfold alive; rewrite map_app; apply in_or_app; right; left; reflexivity).
+    assert (Hna0 : ~ alive al k') by (intros Ha; apply Hna'; unfold alive in *; rewrite map_app; apply in_or_app; left; assumption).
+    assert (Hnp0 : ~ pend rem k') by (intros Hp0; apply Hnp'; apply Hp; auto).
+    destruct (g_dead HG k' Hk' Hna0 Hnp0) as (sl & Hs & Hlt). exists sl. split; [apply Hslot_old; assumption|assumption].
+  - (* pending *)
+    intros k' Hp'. apply Hp in Hp'. destruct Hp' as (Hp0 & Hne).
+    destruct (g_pend HG k' Hp0) as (A & B & C & D & U). split; [assumption|]. split.
+    { intros Ha. unfold alive in Ha. rewrite map_app in Ha. apply in_app_or in Ha. destruct Ha as [Ha|[E|[]]]; [apply B; exact Ha|simpl in E; congruence]. }
+    split; [assumption|]. split; [|assumption].
+    pose proof (Hother k' A Hne) as Hoi. unfold pend_at, gap in *. rewrite HW.
+    destruct (Nat.lt_ge_cases (N.to_nat (fst (hnd hs k'))) (length (slots s'))) as [Hin'|Hout]; [right|left; assumption].
+    destruct D as [D|(D1 & D2)].
+    + split; [apply A4; assumption|]. intros Hw. pose proof (g_free_range HG _ Hw) as Hr. rewrite Nat2N.id in Hr. lia.
+    + split; [|assumption]. rewrite A3; [assumption|assumption|apply nth_error_Some; congruence].
+  - (* every slot *)
+    intros j Hj. unfold gap in *. rewrite HW. destruct (Nat.eq_dec j (N.to_nat i)) as [->|Hne].
+    + right. left. exists k, key. split; [apply in_or_app; right; left; reflexivity|]. rewrite Eh. simpl. rewrite N2Nat.id. reflexivity.
+    + destruct (Nat.lt_ge_cases j (length (slots s))) as [Hjl|Hjg].
+      * destruct (g_slots HG j Hjl) as [H|[(k' & key' & Hin & E)|(H1 & H2)]].
+        -- left. assumption.
+        -- right. left. exists k', key'. split; [apply in_or_app; left; assumption|assumption].
+        -- right. right. split; [rewrite A3 by assumption; assumption|assumption].
+      * right. right. split; [apply A4; assumption|]. intros Hw. pose proof (g_free_range HG _ Hw) as Hr. rewrite Nat2N.id in Hr. lia.
+  - rewrite A6, map_key_upd by assumption. apply (g_arch_keys HG).
+  - (* members *)
+    intros ai' a' idx' h' _ Ha' Hh'. rewrite A6 in Ha'.
+    assert (Hmem_old : forall aj b idx h0, nth_error (archs s) aj = Some b -> nth_error (a_ents b) idx = Some h0 ->
+              exists k0, In (k0, a_key b) (al ++ [(k, key)]) /\ k0 < length hs /\ hnd hs k0 = h0 /\
+                         nth_error (locs s') (N.to_nat (fst h0)) = Some {| l_arch := Some aj; l_idx := idx |}).
+    { intros aj b idx h0 Hb Hh0. destruct (g_arch_members HG aj b idx h0 (noex_no _ _) Hb Hh0) as (k0 & A & B & C & D).
+      exists k0. split; [apply in_or_app; left; assumption|]. split; [assumption|]. split; [assumption|].
+      assert (Hne : k0 <> k) by (intros ->; apply Hna; unfold alive; apply in_map_iff; exists (k, a_key b); auto).
+      rewrite <- C. rewrite A7o; [rewrite C; assumption|apply Hother; assumption|rewrite C; apply nth_error_Some; congruence]. }
+    destruct (Nat.eq_dec ai ai') as [<-|Hnai].
+    + rewrite nth_error_upd_same in Ha' by assumption. inversion Ha'; subst a'. simpl in *.
+      destruct (Nat.lt_ge_cases idx' (length (a_ents a))) as [Hlt|Hge].
+      * rewrite nth_error_app1 in Hh' by assumption. apply (Hmem_old ai a idx' h' Harch Hh').
+      * assert (idx' = length (a_ents a)).
+        { assert (idx' < length (a_ents a ++ [(i, 0%N)])) by (apply nth_error_Some; congruence). rewrite app_length in H. simpl in H. lia. }
+        subst idx'. rewrite nth_error_app_last in Hh'. inversion Hh'; subst h'.
+        exists k. split; [apply in_or_app; right; left; rewrite Hkey; reflexivity|]. split; [assumption|]. split; [assumption|assumption].
+    + rewrite nth_error_upd_other in Ha' by assumption. apply (Hmem_old ai' a' idx' h' Ha' Hh').
+  - (* history *)
+    intros j sl w Hs Hnn Hw. destruct (Nat.eq_dec j (N.to_nat i)) as [->|Hne].
+    + rewrite A2 in Hs. inversion Hs; subst sl. simpl in Hw. lia.
+    + destruct (Nat.lt_ge_cases j (length (slots s))) as [Hjl|Hjg].
+      * rewrite A3 in Hs by assumption. eapply (g_hist HG); eassumption.
+      * assert (Hj' : j < length (slots s')) by (apply nth_error_Some; congruence).
+        rewrite A4 in Hs by assumption. inversion Hs; subst sl. contradiction.
+Qed.
+
+(* the creation command of the pending handle k = (i, 0) is applied and the same pack destroys it at once:
+   the slot is installed and released with version 1; the entity never enters an archetype *)
+Lemma G_stillborn s s' hs al rem rem' k i :
+  G s hs al rem -> pend rem k -> (forall k', pend rem' k' <-> pend rem k' /\ k' <> k) -> hnd hs k = (i, 0%N) ->
+  length (locs s') = length (slots s') -> length (slots s) <= length (slots s') ->
+  nth_error (slots s') (N.to_nat i) =
+    Some {| s_id := match empty_slots s with O => (i + 1)%N | S _ => next_slot s end; s_ver := 1 |} ->
+  (forall j, j <> N.to_nat i -> j < length (slots s) -> nth_error (slots s') j = nth_error (slots s) j) ->
+  (forall j, j <> N.to_nat i -> length (slots s) <= j -> j < length (slots s') -> nth_error (slots s') j = Some null_slot) ->
+  next_slot s' = i -> empty_slots s' = S (empty_slots s) -> archs s' = archs s ->
+  (forall j, j <> N.to_nat i -> j < length (locs s) -> nth_error (locs s') j = nth_error (locs s) j) ->
+  G s' hs al rem'.
+Proof.
+  intros HG Hpk Hp Eh A1 A10 A2 A3 A4 En Ee Ea A7o.
+  destruct (g_pend HG k Hpk) as (Hk & Hna & _ & Hpat & Huniq). rewrite Eh in Hpat, Huniq. unfold pend_at, gap in Hpat. simpl in Hpat, Huniq.
+  pose proof (g_len HG) as Hlen.
+  assert (Hi' : N.to_nat i < length (slots s')) by (apply nth_error_Some; congruence).
+  assert (HniW : ~ In i (W s)).
+  { destruct Hpat as [Hge|(_ & Hn)]; [|rewrite N2Nat.id in Hn; assumption]. intros Hin. pose proof (g_free_range HG i Hin). lia. }
+  assert (HWold : forall x, In x (W s) -> nth_error (slots s') (N.to_nat x) = nth_error (slots s) (N.to_nat x)).
+  { intros x Hx. apply A3; [|apply (g_free_range HG); exact Hx].
+    intros E. apply HniW. replace i with x by (apply N2Nat.inj; assumption). exact Hx. }
+  assert (HW : W s' = i :: W s).
+  { unfold W at 1. rewrite En, Ee. rewrite walk_S, A2. simpl. f_equal. unfold W in *. destruct (empty_slots s) as [|e] eqn:E0; [reflexivity|].
+    apply walk_ext. exact HWold. }
+  assert (Hother : forall k', k' < length hs -> k' <> k -> N.to_nat (fst (hnd hs k')) <> N.to_nat i).
+  { intros k' Hk' Hne E. apply (Huniq k' Hk' Hne). apply N2Nat.inj. assumption. }
+  assert (Hslot_old : forall k' sl, k' < length hs -> k' <> k -> nth_error (slots s) (N.to_nat (fst (hnd hs k'))) = Some sl ->
+             nth_error (slots s') (N.to_nat (fst (hnd hs k'))) = Some sl).
+  { intros k' sl Hk' Hne Hs. rewrite A3; [assumption|apply Hother; assumption|apply nth_error_Some; congruence]. }
+  assert (Hal_ne : forall k' key', In (k', key') al -> k' <> k).
+  { intros k' key' Hin ->. apply Hna. unfold alive. apply in_map_iff. exists (k, key'). auto. }
+  constructor.
+  - assumption.
+  - rewrite HW. constructor; [assumption|apply (g_free_nodup HG)].
+  - intros x Hx. rewrite HW in Hx. destruct Hx as [<-|Hx]; [assumption|]. pose proof (g_free_range HG x Hx). lia.
+  - intros x sl Hx Hs. rewrite HW in Hx. destruct Hx as [<-|Hx].
+    + rewrite A2 in Hs. inversion Hs; subst sl. simpl. unfold NULL_VER. lia.
+    + rewrite HWold in Hs by assumption. eapply (g_free_ver HG); eassumption.
+  - apply (g_hs_ver HG).
+  - apply (g_hs_id HG).
+  - apply (g_hs_nodup HG).
+  - apply (g_al_nodup HG).
+  - (* alive *)
+    intros k' key' Hin. pose proof (Hal_ne k' key' Hin) as Hne.
+    destruct (g_alive HG k' key' Hin) as (Hk'lt & HnW' & Hslot' & ai' & idx' & a' & Hloc' & Harch' & Hkey' & Hent').
+    split; [assumption|]. split.
+    { rewrite HW. intros [E|E]; [|contradiction]. apply (Hother k' Hk'lt Hne). rewrite E. reflexivity. }
+    split; [apply Hslot_old; assumption|].
+    exists ai', idx', a'. rewrite Ea. split; [|auto].
+    rewrite A7o; [assumption|apply Hother; assumption|apply nth_error_Some; congruence].
+  - (* dead *)
+    intros k' Hk' Hna' Hnp'. destruct (Nat.eq_dec k' k) as [->|Hne].
+    + rewrite Eh. eexists. split; [exact A2|]. simpl. lia.
+    + assert (Hnp0 : ~ pend rem k') by (intros Hp0; apply Hnp'; apply Hp; auto).
+      destruct (g_dead HG k' Hk' Hna' Hnp0) as (sl & Hs & Hlt). exists sl. split; [apply Hslot_old; assumption|assumption].
+  - (* pending *)
+    intros k' Hp'. apply Hp in Hp'. destruct Hp' as (Hp0 & Hne).
+    destruct (g_pend HG k' Hp0) as (A & B & C & D & U). split; [assumption|]. split; [assumption|]. split; [assumption|]. split; [|assumption].
+    pose proof (Hother k' A Hne) as Hoi. unfold pend_at, gap in *. rewrite HW.
+    destruct (Nat.lt_ge_cases (N.to_nat (fst (hnd hs k'))) (length (slots s'))) as [Hin'|Hout]; [right|left; assumption].
+    assert (Hni : N.of_nat (N.to_nat (fst (hnd hs k'))) <> i) by (intros E; apply Hoi; rewrite <- E, Nat2N.id; reflexivity).
+    destruct D as [D|(D1 & D2)].
+    + split; [apply A4; assumption|]. intros [E|Hw]; [congruence|]. pose proof (g_free_range HG _ Hw) as Hr. rewrite Nat2N.id in Hr. lia.
+    + split; [rewrite A3; [assumption|assumption|apply nth_error_Some; congruence]|]. intros [E|Hw]; [congruence|contradiction].
+  - (* every slot *)
+    intros j Hj. unfold gap in *. rewrite HW. destruct (Nat.eq_dec j (N.to_nat i)) as [->|Hne].
+    + left. left. rewrite N2Nat.id. reflexivity.
+    + assert (Hni : i <> N.of_nat j) by (intros E; apply Hne; rewrite E, Nat2N.id; reflexivity).
+      destruct (Nat.lt_ge_cases j (length (slots s))) as [Hjl|Hjg].
+      * destruct (g_slots HG j Hjl) as [H|[(k' & key' & Hin & E)|(H1 & H2)]].
+        -- left. right. assumption.
+        -- right. left. exists k', key'. auto.
+        -- right. right. split; [rewrite A3 by assumption; assumption|]. intros [E|Hw]; [congruence|contradiction].
+      * right. right. split; [apply A4; assumption|]. intros [E|Hw]; [congruence|]. pose proof (g_free_range HG _ Hw) as Hr. rewrite Nat2N.id in Hr. lia.
+  - rewrite Ea. apply (g_arch_keys HG).
+  - intros ai' a' idx' h' Hx Ha' Hh'. rewrite Ea in Ha'.
+    destruct (g_arch_members HG ai' a' idx' h' Hx Ha' Hh') as (k0 & A & B & C & D).
+    exists k0. split; [assumption|]. split; [assumption|]. split; [assumption|].
+    pose proof (Hal_ne k0 _ A) as Hne. rewrite <- C. rewrite A7o; [rewrite C; assumption|apply Hother; assumption|rewrite C; apply nth_error_Some; congruence].
+  - (* history *)
+    intros j sl w Hs Hnn Hw. destruct (Nat.eq_dec j (N.to_nat i)) as [->|Hne].
+    + rewrite A2 in Hs. inversion Hs; subst sl. simpl in Hw. assert (w = 0%N) by lia. subst w. rewrite N2Nat.id. rewrite <- Eh. apply nth_In_hnd. assumption.
+    + destruct (Nat.lt_ge_cases j (length (slots s))) as [Hjl|Hjg].
+      * rewrite A3 in Hs by assumption. eapply (g_hist HG); eassumption.
+      * assert (Hj' : j < length (slots s')) by (apply nth_error_Some; congruence).
+        rewrite A4 in Hs by assumption. inversion Hs; subst sl. contradiction.
+Qed.
